@@ -152,31 +152,20 @@ func runValDom(c *core.Ctx) {
 		c.Unknown(nil, fname(c, dec), "tag-key clause", P.Pos(dec.Pos()), "too many paths")
 		return
 	}
-	// subjects: string bytes k[i] with constant i compared on those paths
-	subj := map[string]bool{}
-	for _, p := range paths {
-		for _, cd := range p.Conds() {
-			v := cd.V
-			for {
-				if u, ok := v.(*ssa.UnOp); ok && u.Op == token.NOT {
-					v = u.X
-					continue
-				}
-				break
+	// the key variable k of the clause: the Tags map is updated under a key cut from it
+	// (`ret.Tags[k[1:2]] = …`); the subjects are its bytes k[0], k[1] and its length —
+	// wherever the tests are written (inline or in a predicate helper)
+	kpath := ""
+	an.Instrs(dec, func(in ssa.Instruction) {
+		if mu, ok := in.(*ssa.MapUpdate); ok && strings.HasSuffix(an.PathOf(mu.Map), ".Tags") {
+			kp := an.PathOf(mu.Key)
+			if i := strings.LastIndex(kp, "["); i > 0 && strings.Contains(kp[i:], ":") {
+				kp = kp[:i]
 			}
-			if b, ok := v.(*ssa.BinOp); ok {
-				for _, side := range []ssa.Value{b.X, b.Y} {
-					if lk, ok := side.(*ssa.Index); ok {
-						if _, isConst := an.ConstInt(lk.Index); isConst {
-							if bt, ok := lk.X.Type().Underlying().(*types.Basic); ok && bt.Info()&types.IsString != 0 {
-								subj[an.PathOf(lk)] = true
-							}
-						}
-					}
-				}
-			}
+			kpath = kp
 		}
-	}
+	})
+	subj := map[string]bool{kpath + "[0]": true, kpath + "[1]": true}
 	var sets []string
 	foundHash, foundLetters := false, false
 	var keys []string
@@ -203,18 +192,9 @@ func runValDom(c *core.Ctx) {
 		"Tags clause reached under "+strings.Join(sets, ", ")+"; want '#' then [A-Z]∪[a-z]")
 	// the key length
 	{
-		// find len(k) subject: path of the form len(rangekey(...))
-		lenSubj := ""
-		for _, p := range paths {
-			for _, cd := range p.Conds() {
-				if b, ok := cd.V.(*ssa.BinOp); ok {
-					for _, side := range []ssa.Value{b.X, b.Y} {
-						if ps := an.PathOf(side); strings.HasPrefix(ps, "len(rangekey(") {
-							lenSubj = ps
-						}
-					}
-				}
-			}
+		lenSubj := "len(" + kpath + ")"
+		if kpath == "" {
+			lenSubj = ""
 		}
 		if lenSubj == "" {
 			c.Unknown(nil, fname(c, dec), "domain(tag-key length decoder)", P.Pos(target.Instrs[0].Pos()), "no length test of the key on the way to the Tags clause")
@@ -331,7 +311,9 @@ func funcValue(v ssa.Value) *ssa.Function {
 }
 
 // isAllQuantifier recognises the module's generic helper
-//   func(vs []T, f func(T) bool) bool { return !slices.ContainsFunc(vs, func(v T) bool { return !f(v) }) }
+//
+//	func(vs []T, f func(T) bool) bool { return !slices.ContainsFunc(vs, func(v T) bool { return !f(v) }) }
+//
 // structurally: returns NOT of ContainsFunc(param0, closure) and the closure
 // returns NOT of a call of its free variable (= param1) on its parameter.
 func isAllQuantifier(fn *ssa.Function) bool {
